@@ -33,6 +33,9 @@ CHECKS = {
  "C13": ("exploration", "bounded-exhaustive enumeration of partition geometries x reader shapes executed on the real Write/ReadPartitionContents and CopyPartitionRaw over a sparse monitored device",
          "Full cross product of table kind, logical/physical sector sizes, start sector (incl. beyond 4 GiB and near 2^32 sectors), size (1 sector to >= 4 GiB), reader length (exact, one byte short, one byte long, empty) and reader chunking (whole buffers, 1/7/513-byte pieces, data together with io.EOF); every WriteAt must lie inside the partition, the stored bytes must equal the reader's at the partition's own offset, success iff exactly the partition size was supplied, ReadPartitionContents must deliver exactly the partition's bytes, CopyPartitionRaw must reproduce the source and refuse a smaller target.",
          "sparse position-dependent content; memdev write monitor", "DESIGN.md §3 C13"),
+ "C06": ("exploration", "bounded-exhaustive enumeration of workspace trees x Finalize option sets, each image read back with the real reader and with an independent ECMA-119 PVD walker",
+         "Every ordered forest with <= 4 nodes and height <= 3 over colliding/long/non-ASCII names and sizes around the sector size, plus fixed shapes (deep chains, 300-entry directory, multi-MiB file, 8.3 collision groups, exact-sector-fit directories, sector-multiple files next to sub-directories), x {plain, RockRidge, Joliet, both} x block size x start offset x volume identifier; directories, names (exact under RR/Joliet, documented upper-case 8.3 mapping otherwise) and bytes must equal the source, and the independent reader must find the same files at non-overlapping extents inside the volume space.",
+         "isock defines what the PVD tree contains; two defect classes (Joliet without Rock Ridge; block size > 2048) are listed as known findings", "DESIGN.md §3 C06"),
  "C02": ("exploration", "bounded-exhaustive enumeration of table inputs executed on the real Write/Read + independent on-disk parser",
          "Every table of a spelled-out finite cross product (entries, indices, spellings, geometries, names, attributes, types, disk sizes, sector sizes, PMBR, prior content) is written by the real code and compared via gpt.Read/mbr.Read, partition.Read, Disk.GetPartition and an independent UEFI-spec parser; exhaustive over that domain, says nothing outside it.",
          "memdev in-memory device; gptck (independent parser written from the UEFI spec) defines on-disk validity", "DESIGN.md §3 C02"),
